@@ -320,4 +320,17 @@ def dot_rules(ctx, flavours):
                     else:
                         why.append('callback P%d called with %s' % (p, pretty(args)))
             out.append(Obl('DOT', b['q'], b['span'], 'one node statement per member, one "u %s v" statement per iterated edge, callbacks once each' % arrow, not why, '; '.join(why) if why else 'ok'))
+        # keys and attribute texts are written as they are (Display), in the exporters and the attribute helper alike
+        helpers = [b for n, b in sorted(ms.items()) if n.startswith('to_dot') or n == 'fmt_attr']
+        for b in helpers:
+            odd = []
+            n = 0
+            for bi, t in calls_in(b):
+                nm = callee_name(t)
+                if nm.startswith('core::fmt::rt::Argument::new_'):
+                    n += 1
+                    if not nm.endswith('::new_display'):
+                        odd.append('%s@%s' % (nm.split('::')[-1], t['sp']))
+            if n:
+                out.append(Obl('DOT-fmt', b['q'], b['span'], 'all %d formatted values use Display (written as supplied)' % n, not odd, 'ok' if not odd else 'formatted with ' + ', '.join(odd)))
     return out
